@@ -1,4 +1,5 @@
 #!/usr/bin/env python3
+# OUTPUT: CddlPest.v
 """Translator for C03 (and every check that needs the grammar): /repo/cddl.pest  ->  Generated/CddlPest.v
 
 usage: pest2coq.py <repo> <outdir>
